@@ -18,6 +18,7 @@ static pclass_t classify(const char* name) {
   if (strstr(name, "reim_to_znx64")) return CL_ROUND_ZNX64;
   if (strstr(name, "cplx_to_tnx32")) return CL_ROUND_TNX32;
   if (strstr(name, "reim_to_tnx")) return CL_TORUS;
+  if (strstr(name, "bitwiddle") || strstr(name, "cplx_fftvec_add_fma") || strstr(name, "cplx_fftvec_sub2_to_fma") || strstr(name, "cplx_fftvec_copy_fma")) return CL_BITWISE;  // same template / one IEEE operation per element
   if (strstr(name, "znx_small_single_product")) return CL_BITWISE;  // small operands: the FFT64 product is exact
   if (strstr(name, "znx_add") || strstr(name, "znx_sub") || strstr(name, "znx_negate") || strstr(name, "vec_znx_") || strstr(name, "extract") || strstr(name, "save") || strstr(name, "from_znx") ||
       strstr(name, "from_tnx32") || strstr(name, "from_cplx") || strstr(name, "to_cplx") || strstr(name, "rnx_divide"))
@@ -129,8 +130,8 @@ static env_t* env_of(uint64_t N, int native) {
 
 static void pair_case(int oi, uint64_t N, unsigned sd) {
   const opdef_t* acc = &OPS[oi];
-  const int ri = op_find(acc->twin);
-  if (ri < 0) harness_fail("catalogue: twin %s of %s not found", acc->twin, acc->name);
+  const opdef_t* ref = op_lookup(acc->twin);
+  if (!ref) harness_fail("catalogue: twin %s of %s not found", acc->twin, acc->name);
   const pclass_t cl = classify(acc->name);
   char key[160];
   snprintf(key, sizeof key, "%s~%s|%s", acc->name, acc->twin, cl_name[cl]);
@@ -138,7 +139,7 @@ static void pair_case(int oi, uint64_t N, unsigned sd) {
   env_t* e = env_of(N, 1);
   opres_t ra, rb;
   const uint64_t seed = mix64(G.seed * 8191 + sd * 131 + N);
-  op_exec(&OPS[ri], e, seed, (int)(sd & 3), sd, MON_CANARY | MON_CAPTURE, &ra);
+  op_exec(ref, e, seed, (int)(sd & 3), sd, MON_CANARY | MON_CAPTURE, &ra);
   op_exec(acc, e, seed, (int)((sd + 1) & 3), sd + 3, MON_CANARY | MON_CAPTURE, &rb);
   if (ra.skipped || rb.skipped) {
     cnt("not_applicable", 1);
@@ -193,7 +194,7 @@ static void* cworker(void* arg) {
 }
 static void concurrent_pair_case(int oi, uint64_t N, unsigned rep) {
   const opdef_t* acc = &OPS[oi];
-  const int ri = op_find(acc->twin);
+  const opdef_t* ref = op_lookup(acc->twin);
   const pclass_t cl = classify(acc->name);
   char key[160];
   snprintf(key, sizeof key, "%s~%s|%s,4 threads", acc->name, acc->twin, cl_name[cl]);
@@ -220,7 +221,7 @@ static void concurrent_pair_case(int oi, uint64_t N, unsigned rep) {
   for (int t = 0; t < T; t++) {
     if (th[t].last.skipped) continue;
     opres_t rr;
-    op_exec(&OPS[ri], e, th[t].seed, 1, th[t].mis + 1, MON_CAPTURE, &rr);
+    op_exec(ref, e, th[t].seed, 1, th[t].mis + 1, MON_CAPTURE, &rr);
     char msg[240];
     double worst;
     if (cl == CL_ROUND_TNX32) rr.d[0] = th[t].last.d[0] = (double)(N / 2);
